@@ -172,7 +172,12 @@ def fit_case(draw):
     sysd = draw(matrix_system(m=(1, 4), shape="notunder", ub_kinds=("finite", "finite", "inf")))
     rows = draw(target_rows(sysd, ["interior", "outside", "scaled_out", "below", "random", "facet"], nrows=(1, 3)))
     s, c, asserted = draw(unit_factors(Sys(sysd)))
-    return dict(system=sysd, rows=rows, s=s, c=c, asserted=asserted, accuracy=draw(st.sampled_from(["high", "high", "default"])))
+    m = len(sysd["A"])
+    # weights are pure numbers: receptor weights, or "inverse" (1 / target, a relative error - unit-free by construction)
+    W = draw(st.sampled_from(["none", "none", "vector", "inverse"]))
+    if W == "vector":
+        W = np.maximum(np.asarray(draw(gens.array((m,), 0.3, 3.0, styles=("raw",)))), 0.3).tolist()
+    return dict(system=sysd, rows=rows, s=s, c=c, asserted=asserted, accuracy=draw(st.sampled_from(["high", "high", "default"])), W=W)
 
 
 def body_fit(case):
@@ -184,17 +189,23 @@ def body_fit(case):
     B1 = np.array([r["b"] for r in case["rows"]], dtype=float)
     high = case["accuracy"] == "high"
     opt = dict(HIGH) if high else {}
-    with calling("lsq_linear (original units)"):
+    W = case.get("W", "none")
+    if isinstance(W, str) and W == "inverse" and not np.all(B1 >= 0.05 * sv1.extent):
+        W = "none"                      # relative errors need targets clearly above zero
+    wlab = W if isinstance(W, str) else "vector"
+    if not (isinstance(W, str) and W == "none"):
+        opt["W"] = W if isinstance(W, str) else np.asarray(W, dtype=float)
+    with calling(f"lsq_linear (original units, W={wlab})"):
         X1, P1 = lsq_linear(sv1.A, B1, return_pred=True, **sv1.kwargs(), **opt)
     try:
-        with calling(f"lsq_linear (units s={s:.3g}, c={c:.3g})"):
+        with calling(f"lsq_linear (units s={s:.3g}, c={c:.3g}, W={wlab})"):
             X2, P2 = lsq_linear(sv2.A, B1 * c, return_pred=True, **sv2.kwargs(), **opt)
     except Violation:
         if case["asserted"]:
             raise
         return sv1.labels() + ["stress", "stress:exception"]
     X1, P1, X2, P2 = map(np.asarray, (X1, P1, X2, P2))
-    labs = sv1.labels() + ["asserted" if case["asserted"] else "stress", f"acc:{case['accuracy']}"]
+    labs = sv1.labels() + ["asserted" if case["asserted"] else "stress", f"acc:{case['accuracy']}", f"W:{wlab}"]
     cap = 2e-3 if high else 2e-2
     smin = float(np.linalg.svd(sv1.Ap, compute_uv=False)[min(sv1.Ap.shape) - 1])
     xtol = 4 * cap / max(smin, 1e-9)
